@@ -91,8 +91,12 @@ def main():
             if M % 2 == 0:
                 n += 1
                 nsz.append({"kind": "nsz", "id": n, "M": M, "up": list(up)})
+    # S_z of a sub-cluster (two-list constructor): the modes outside both lists are spectators
+    for (M, up, down) in ((3, [0], [1]), (3, [2], [0]), (4, [1], [2]), (4, [0], [3]), (5, [1, 3], [0, 2]), (5, [0, 4], [1, 2]), (6, [1, 3], [0, 2]), (6, [5, 0], [2, 3])):
+        n += 1
+        nsz.append({"kind": "nsz", "id": n, "M": M, "up": up, "down": down})
     scen += nsz
-    recs, crashed = pv.run_driver_resilient(exe, scen, timeout=3000)
+    recs, crashed = pv.run_driver_resilient(exe, scen, timeout=3000, scen_timeout=120)
     byid = {r["id"]: r for r in recs if r.get("e") in ("Alg", "NSz")}
     ev = []
     for s in scen:
